@@ -292,8 +292,20 @@ inline bool disjoint(MView const& a, MView const& b) {
 	return true;
 }
 
+inline constexpr int NFILE = 4;
+struct MFile {
+	bool             valid    = false;
+	int              arch     = 0;      // 0 text, 1 binary, 2 xml
+	bool             is_array = false;  // an owning array (extensions + elements) or a view (elements only)
+	int              D        = 0;
+	int              n[MAXD]{};
+	std::vector<i64> v;
+	long count() const { return prod(n, D); }
+};
+
 struct Model {
-	MArr slot[MAXD + 1][NSLOT];
+	MArr  slot[MAXD + 1][NSLOT];
+	MFile files[NFILE];
 	MArr&       at(int D, int i) { return slot[D][i]; }
 	MArr const& at(int D, int i) const { return slot[D][i]; }
 	void        clear() {
@@ -302,6 +314,10 @@ struct Model {
                 MArr fresh;
                 m = fresh;
             }
+        for(auto& f : files) {
+            MFile fresh;
+            f = fresh;
+        }
 	}
 };
 
